@@ -214,6 +214,17 @@ class PyDims:
             for i, e in enumerate(target.elts):
                 sub = v.elems[i] if v.elems is not None and i < len(v.elems) else V(v.t)
                 self.assign(e, sub, env, inst, fn, mname, owner, stmt)
+        elif isinstance(target, ast.Attribute) and self_attr(target) is not None:
+            a = self_attr(target)
+            if v.elems is not None or v.obj is not None:
+                inst.attrs.setdefault(a, v)
+            elif a not in inst.attrs or inst.attrs[a].t is None:
+                if v.t is not None and not v.poly0:
+                    var = Term.var(f"{inst.ctx}.attr.{a}")
+                    self.solver.equal(var, v.t, self.origin(owner, stmt, mname), norm(stmt))
+                    inst.attrs[a] = V(var, v.val)
+            elif v.t is not None and not v.poly0 and inst.attrs[a].elems is None:
+                self.solver.equal(inst.attrs[a].t, v.t, self.origin(owner, stmt, mname), norm(stmt))
         elif isinstance(target, ast.Subscript):
             cur = self.ev(target.value, env, inst, fn, mname, owner)
             if cur.t is not None and v.t is not None and not v.poly0:
@@ -228,6 +239,8 @@ class PyDims:
             if isinstance(e.value, (int, float)):
                 if e.value == 0:
                     return V(DIMLESS, RF(0), poly0=True)
+                if abs(e.value) < 1e-9:
+                    return V(DIMLESS, None, poly0=True)  # numerical tolerance: compared with quantities of any dimension
                 return V(DIMLESS, RF(Fraction(e.value).limit_denominator(10 ** 6)))
             return V()
         if isinstance(e, ast.Name):
@@ -420,7 +433,7 @@ class PyDims:
             target: Optional[Instance] = recv.obj
             if isinstance(f.value, ast.Name) and f.value.id == "self":
                 target = inst
-            if target is not None:
+            if isinstance(target, Instance):
                 r = self.prog.resolve_method(target.cls, f.attr)
                 if r is not None:
                     self.method(target, f.attr)
